@@ -135,6 +135,7 @@ pub fn registry() -> Vec<TypeEntry> {
                     wfaults: vec![],
                     rfaults: vec![],
                     retry: false,
+                    in_place: false,
                 };
                 let o = (e.run)(&plan, RunOpts { trace: true });
                 let mut p = Probe { wsteps: o.wsteps, rsteps: o.rsteps, records: vec![] };
